@@ -169,7 +169,8 @@ inline std::function<double(vec3)> sdf_kind(int64_t kind, int64_t k) {
 // Manifold(MeshGL64): kind 0 = row of M unit cells sharing corner vertices, the
 // wall between neighbouring boxes of K cells present twice with opposite
 // orientation; kind 1 = staircase of M boxes touching along an edge with merged
-// vertices (every shared edge used by four triangles).
+// vertices (every shared edge used by four triangles); kind 2 = chain of M boxes touching at one
+// corner with the shared vertex merged (pinched vertices in the input).
 inline MeshGL64 cell_mesh(int M, int K, int kind) {
   MeshGL64 g;
   g.numProp = 3;
@@ -188,21 +189,22 @@ inline MeshGL64 cell_mesh(int M, int K, int kind) {
   auto quad = [&](uint64_t a, uint64_t b, uint64_t c, uint64_t d) {
     for (uint64_t v : {a, b, c, a, c, d}) g.triVerts.push_back(v);
   };
-  auto box = [&](int x0, int y0, bool left, bool right) {
-    const int x1 = x0 + 1, y1 = y0 + 1;
-    if (right) quad(V(x1, y0, 0), V(x1, y1, 0), V(x1, y1, 1), V(x1, y0, 1));
-    if (left) quad(V(x0, y0, 0), V(x0, y0, 1), V(x0, y1, 1), V(x0, y1, 0));
-    quad(V(x0, y1, 0), V(x0, y1, 1), V(x1, y1, 1), V(x1, y1, 0));
-    quad(V(x0, y0, 0), V(x1, y0, 0), V(x1, y0, 1), V(x0, y0, 1));
-    quad(V(x0, y0, 1), V(x1, y0, 1), V(x1, y1, 1), V(x0, y1, 1));
-    quad(V(x0, y0, 0), V(x0, y1, 0), V(x1, y1, 0), V(x1, y0, 0));
+  auto box = [&](int x0, int y0, int z0, bool left, bool right) {
+    const int x1 = x0 + 1, y1 = y0 + 1, z1 = z0 + 1;
+    if (right) quad(V(x1, y0, z0), V(x1, y1, z0), V(x1, y1, z1), V(x1, y0, z1));
+    if (left) quad(V(x0, y0, z0), V(x0, y0, z1), V(x0, y1, z1), V(x0, y1, z0));
+    quad(V(x0, y1, z0), V(x0, y1, z1), V(x1, y1, z1), V(x1, y1, z0));
+    quad(V(x0, y0, z0), V(x1, y0, z0), V(x1, y0, z1), V(x0, y0, z1));
+    quad(V(x0, y0, z1), V(x1, y0, z1), V(x1, y1, z1), V(x0, y1, z1));
+    quad(V(x0, y0, z0), V(x0, y1, z0), V(x1, y1, z0), V(x1, y0, z0));
   };
   if (K < 1) K = 1;
   for (int c = 0; c < M; ++c) {
-    if (kind % 2 == 0)
-      box(c, 0, c % K == 0, (c + 1) % K == 0 || c + 1 == M);
-    else
-      box(c, c, true, true);
+    switch (((kind % 3) + 3) % 3) {
+      case 0: box(c, 0, 0, c % K == 0, (c + 1) % K == 0 || c + 1 == M); break;  // doubled walls
+      case 1: box(c, c, 0, true, true); break;                                   // touching along an edge
+      default: box(c, c, c, true, true); break;                                  // touching at one corner: pinched vertices
+    }
   }
   return g;
 }
@@ -261,7 +263,7 @@ inline bool exec(Env& e, const Op& op) {
                                 A(2) % 3 == 0 ? 360.0 : U(A(2), 30, 360)));
   } else if (n == "cellrow") {
     int M = 1 + (int)(((A(0) % 6000) + 6000) % 6000), K = 1 + (int)(((A(1) % 32) + 32) % 32);
-    e.pushM(Manifold(cell_mesh(M, K, (int)(A(2) % 2))));
+    e.pushM(Manifold(cell_mesh(M, K, (int)(A(2) % 3))));
   } else if (n == "hullpts") {
     Rng r((uint64_t)A(1) * 31 + 7);
     std::vector<vec3> pts;
@@ -348,7 +350,7 @@ inline bool exec(Env& e, const Op& op) {
       Manifold b = Manifold::Cube(vec3(U(A(2), .05, .2)), true);
       if (A(1) % 3 == 1) b = Manifold::Sphere(U(A(2), .05, .15), 8);
       if (A(1) % 3 == 2) b = e.m(A(3)).Scale(vec3(0.15));
-      size_t lim = (size_t)A(4, 300);
+      size_t lim = 120;
       if (a.NumTri() > lim || b.NumTri() > lim)
         e.note = "skipped:size";
       else
